@@ -44,6 +44,7 @@ type rtSc struct {
 	Peers    []lkPeer  `json:"peers"`
 	Rejected []int     `json:"rejected"` // indices the routing-table filter rejects
 	CheckCap int       `json:"check_cap"`
+	Boot     []int     `json:"boot,omitempty"` // indices of peers configured as bootstrap peers (dialled by the low-peers repair when the table is empty)
 	Events   []rtEvent `json:"events"`
 	// PreConn: peers already connected when the DHT is constructed (New looks at them), each with or without the DHT protocol
 	// in the peerstore: (peer index, advertises)
@@ -57,7 +58,7 @@ type interaction struct {
 
 func runRT(t *testing.T, sc *rtSc) (res verifsim.Result) {
 	pp := ppool()
-	admissionThenEviction, cancelledWithFailures, goneDuringProbe := 0, 0, 0
+	admissionThenEviction, cancelledWithFailures, goneDuringProbe, livenessTimeouts := 0, 0, 0, 0
 	out := verifsim.Bubble(t, func() {
 		s := &lkSc{K: sc.K, Alpha: sc.Alpha, Beta: sc.Beta, Self: sc.Self, Peers: sc.Peers}
 		self := s.selfID()
@@ -71,6 +72,7 @@ func runRT(t *testing.T, sc *rtSc) (res verifsim.Result) {
 		health := make([]lkPeer, len(sc.Peers))
 		copy(health, sc.Peers)
 		goneAt := map[peer.ID]int{} // log length when a "protocol gone" event was delivered
+		livenessDeadline := map[time.Duration]bool{} // instants at which a refresh's liveness pass (started with a refresh event) times out
 		sim.Dial = func(p peer.ID, n int) (time.Duration, string) {
 			i, ok := idx[p]
 			if !ok {
@@ -121,7 +123,15 @@ func runRT(t *testing.T, sc *rtSc) (res verifsim.Result) {
 			// of a refresh lookup would fail at the very instant the lookup is cancelled by its own deadline, and which of the two the
 			// DHT sees first is a coin toss. Half a millisecond apart (latencies are whole milliseconds) the order is a fact.
 			RoutingTableRefreshQueryTimeout(10*time.Second+500*time.Microsecond),
-			RoutingTableFilter(func(_ any, p peer.ID) bool { return !rejected[p] }))
+			RoutingTableFilter(func(_ any, p peer.ID) bool { return !rejected[p] }),
+			BootstrapPeersFunc(func() []peer.AddrInfo {
+				var out []peer.AddrInfo
+				for _, b := range sc.Boot {
+					i := b % len(sc.Peers)
+					out = append(out, peer.AddrInfo{ID: peer.ID(pp.IDs[sc.Peers[i].ID]), Addrs: s.addrOf(sc.Peers[i].ID)})
+				}
+				return out
+			}))
 		if err != nil {
 			res.Fail("constructs", "C12/new/error", "%v", err)
 			return
@@ -178,6 +188,11 @@ func runRT(t *testing.T, sc *rtSc) (res verifsim.Result) {
 							viaProbeOnly = true
 						}
 					}
+					if !qualifies && !viaProbeOnly {
+						// every admission follows an answer: nothing is queued for later (the routing table keeps no candidates)
+						res.Fail("proven", "C12/admit/without-answer", "%s: %s was admitted although it has not answered any request of this node since the previous quiescent point", step, shortID(m))
+						return false
+					}
 					if !qualifies && viaProbeOnly {
 						res.Fail("probe-needs-protocol-and-filter", "C12/admit/probe-without-protocol-or-filter", "%s: %s was admitted on the strength of the admission probe alone although it does not advertise the DHT protocol (advertises=%v) or is rejected by the routing-table filter (rejected=%v)", step, shortID(m), advertises[m], rejected[m])
 						return false
@@ -204,6 +219,12 @@ func runRT(t *testing.T, sc *rtSc) (res verifsim.Result) {
 					last[e.Peer] = interaction{i, "ok"}
 				case (e.Outcome == "fail" || e.Outcome == "timeout") && !inCancelled(e):
 					last[e.Peer] = interaction{i, "fail"}
+				case e.Outcome == "cancelled" && livenessDeadline[e.End] && e.End-e.Start == 10*time.Second:
+					// a dial or ping that began with a refresh's liveness pass and was cut by that pass's own 10 s deadline: the
+					// member failed its liveness probe by timing out (nothing else ends exactly then: the refresh lookups start after
+					// the pass, and no caller cancelled anything)
+					last[e.Peer] = interaction{i, "fail"}
+					livenessTimeouts++
 				}
 			}
 			for p, at := range goneAt {
@@ -309,6 +330,7 @@ func runRT(t *testing.T, sc *rtSc) (res verifsim.Result) {
 					}
 				}
 			case "refresh":
+				livenessDeadline[sim.Now()+10*time.Second] = true
 				var ch <-chan error
 				if ev.Force {
 					ch = d.ForceRefresh()
@@ -353,6 +375,9 @@ func runRT(t *testing.T, sc *rtSc) (res verifsim.Result) {
 	if admissionThenEviction > 0 {
 		res.Class("admission-then-eviction")
 	}
+	if livenessTimeouts > 0 {
+		res.Class("liveness-probe-timed-out")
+	}
 	if goneDuringProbe > 0 {
 		res.Class("protocol-dropped-during-probe")
 	}
@@ -396,6 +421,9 @@ func TestVerif_C12_RoutingTable(t *testing.T) {
 				sc.Peers[i].DialMs = rapid.IntRange(0, 200).Draw(t, "dialMs")
 			}
 			sc.Rejected = rapid.SliceOfN(rapid.IntRange(0, n-1), 0, 2).Draw(t, "rejected")
+			if rapid.Bool().Draw(t, "hasBoot") {
+				sc.Boot = rapid.SliceOfNDistinct(rapid.IntRange(0, n-1), 1, min(3, n), func(i int) int { return i }).Draw(t, "boot")
+			}
 			sc.PreConn = rapid.SliceOfN(rapid.Custom(func(t *rapid.T) [2]int {
 				return [2]int{rapid.IntRange(0, n-1).Draw(t, "prePeer"), rapid.IntRange(0, 1).Draw(t, "preProto")}
 			}), 0, 3).Draw(t, "preConn")
@@ -422,11 +450,36 @@ func TestVerif_C12_RoutingTable(t *testing.T) {
 					}
 					return rtEvent{Ev: "advance", Min: rapid.SampledFrom([]int{5, 30, 90}).Draw(t, "min")}
 				case 11, 12:
-					return rtEvent{Ev: "health", Peer: p, Dial: rapid.SampledFrom([]string{"", "", "fail"}).Draw(t, "dial"), Req: rapid.SampledFrom([]string{"", "fail", "silent"}).Draw(t, "req")}
+					return rtEvent{Ev: "health", Peer: p, Dial: rapid.SampledFrom([]string{"", "", "fail", "hang"}).Draw(t, "dial"), Req: rapid.SampledFrom([]string{"", "fail", "silent"}).Draw(t, "req")}
 				default:
 					return rtEvent{Ev: "close-refresh", Ms: rapid.IntRange(0, 3000).Draw(t, "ms")}
 				}
 			}), 1, 14).Draw(t, "events")
+			if len(sc.Boot) > 0 && verifsim.Chance(t, "bootMacro", 50) {
+				// a configured bootstrap peer that is dialable and advertises the protocol but does not answer, met by the low-peers
+				// repair while the table is (probably) empty
+				b := sc.Boot[0]
+				pre := []rtEvent{{Ev: "health", Peer: b, Req: rapid.SampledFrom([]string{"fail", "silent"}).Draw(t, "bootReq")}, {Ev: "identify", Peer: b, Proto: true, Conn: rapid.Bool().Draw(t, "bootConn")}, {Ev: "fixlow"}}
+				if rapid.Bool().Draw(t, "bootFirst") {
+					sc.Events = append(pre, sc.Events...)
+				} else {
+					sc.Events = append(sc.Events, pre...)
+				}
+			}
+			if verifsim.Chance(t, "livenessMacro", 30) {
+				// some peers start to time out (dial hangs / request stays silent), time passes until members are due for their
+				// liveness check, and a refresh runs it
+				for j := rapid.IntRange(1, 3).Draw(t, "nSick"); j > 0; j-- {
+					ev := rtEvent{Ev: "health", Peer: rapid.IntRange(0, n-1).Draw(t, "sick")}
+					if rapid.Bool().Draw(t, "sickDial") {
+						ev.Dial = "hang"
+					} else {
+						ev.Req = "silent"
+					}
+					sc.Events = append(sc.Events, ev)
+				}
+				sc.Events = append(sc.Events, rtEvent{Ev: "advance", Min: 90}, rtEvent{Ev: "refresh", Force: rapid.Bool().Draw(t, "macroForce")})
+			}
 			return sc
 		},
 		Run: func(t *testing.T, sc rtSc) verifsim.Result { return runRT(t, &sc) },
